@@ -8,26 +8,75 @@ theorem accepts_empty (s : List Char) : accepts empty s = false := by
   | nil => rfl
   | cons c s ih => simpa [accepts, deriv] using ih
 
+theorem mem_dedupRe (x : Re) (l : List Re) : x ∈ dedupRe l ↔ x ∈ l := by
+  induction l with
+  | nil => simp [dedupRe]
+  | cons y ys ih =>
+    unfold dedupRe
+    by_cases h : y ∈ ys
+    · simp only [h, if_true, ih, List.mem_cons]
+      constructor
+      · intro hx; exact Or.inr hx
+      · intro hx
+        rcases hx with e | hx
+        · rw [e]; exact h
+        · exact hx
+    · simp only [h, if_false, List.mem_cons, ih]
+
+theorem any_dedupRe (p : Re → Bool) (l : List Re) : (dedupRe l).any p = l.any p := by
+  apply Bool.eq_iff_iff.mpr
+  simp only [List.any_eq_true]
+  constructor
+  · rintro ⟨x, hx, hp⟩; exact ⟨x, (mem_dedupRe x l).mp hx, hp⟩
+  · rintro ⟨x, hx, hp⟩; exact ⟨x, (mem_dedupRe x l).mpr hx, hp⟩
+
+/-- For one string: if `alt` means union on it, so do flattening and rebuilding. -/
+theorem accepts_alts_of (s : List Char)
+    (h2 : ∀ a b : Re, accepts (alt a b) s = (accepts a s || accepts b s)) :
+    (∀ r : Re, accepts r s = (alts r).any (fun x => accepts x s)) ∧
+    (∀ l : List Re, accepts (ofAlts l) s = l.any (fun x => accepts x s)) := by
+  constructor
+  · intro r
+    induction r with
+    | alt a b iha ihb => rw [h2, iha, ihb]; simp [alts, List.any_append]
+    | empty => simp [alts, accepts_empty]
+    | eps => simp [alts]
+    | cls rs => simp [alts]
+    | cat a b _ _ => simp [alts]
+    | star a _ => simp [alts]
+    | rep a mn mx _ => simp [alts]
+  · intro l
+    induction l with
+    | nil => simp [ofAlts, accepts_empty]
+    | cons r rs ih =>
+      cases rs with
+      | nil => simp [ofAlts]
+      | cons r' rs' =>
+        show accepts (alt r (ofAlts (r' :: rs'))) s = _
+        rw [h2, ih]; simp
+
 theorem accepts_alt_both (s : List Char) : ∀ a b : Re,
     accepts (mkAlt a b) s = (accepts a s || accepts b s) ∧
     accepts (alt a b) s = (accepts a s || accepts b s) := by
   induction s with
   | nil =>
+    have h2 : ∀ a b : Re, accepts (alt a b) [] = (accepts a [] || accepts b []) := by
+      intro a b; simp [accepts, nullable]
     intro a b
-    refine ⟨?_, by simp [accepts, nullable]⟩
+    refine ⟨?_, h2 a b⟩
+    obtain ⟨hA, hB⟩ := accepts_alts_of [] h2
     unfold mkAlt
-    split <;> simp [accepts, nullable]
+    rw [hB, any_dedupRe, List.any_append, ← hA a, ← hA b]
   | cons c s ih =>
-    intro a b
-    have h2 : accepts (alt a b) (c :: s) = (accepts a (c :: s) || accepts b (c :: s)) := by
+    have h2 : ∀ a b : Re, accepts (alt a b) (c :: s) = (accepts a (c :: s) || accepts b (c :: s)) := by
+      intro a b
       simp only [accepts, deriv]
       exact (ih _ _).1
-    refine ⟨?_, h2⟩
+    intro a b
+    refine ⟨?_, h2 a b⟩
+    obtain ⟨hA, hB⟩ := accepts_alts_of (c :: s) h2
     unfold mkAlt
-    split
-    · simp [accepts_empty]
-    · simp [accepts_empty]
-    · exact h2
+    rw [hB, any_dedupRe, List.any_append, ← hA a, ← hA b]
 
 theorem accepts_mkAlt (a b : Re) (s : List Char) :
     accepts (mkAlt a b) s = (accepts a s || accepts b s) := (accepts_alt_both s a b).1
@@ -122,13 +171,44 @@ theorem alphabet_mkCat (a b : Re) (x : Char) (h : inRanges (alphabet (mkCat a b)
   · simp [alphabet, inRanges] at h
   · simpa [alphabet, inRanges_append] using h
 
+theorem alphabet_of_mem_alts (r r' : Re) (x : Char) (hm : r' ∈ alts r)
+    (h : inRanges (alphabet r') x = true) : inRanges (alphabet r) x = true := by
+  induction r with
+  | alt a b iha ihb =>
+    simp only [alts, List.mem_append] at hm
+    simp only [alphabet, inRanges_append, Bool.or_eq_true]
+    rcases hm with hm | hm
+    · exact Or.inl (iha hm)
+    · exact Or.inr (ihb hm)
+  | empty => simp [alts] at hm
+  | eps => simp only [alts, List.mem_singleton] at hm; rw [hm] at h; exact h
+  | cls rs => simp only [alts, List.mem_singleton] at hm; rw [hm] at h; exact h
+  | cat a b _ _ => simp only [alts, List.mem_singleton] at hm; rw [hm] at h; exact h
+  | star a _ => simp only [alts, List.mem_singleton] at hm; rw [hm] at h; exact h
+  | rep a mn mx _ => simp only [alts, List.mem_singleton] at hm; rw [hm] at h; exact h
+
+theorem alphabet_ofAlts (l : List Re) (x : Char) (h : inRanges (alphabet (ofAlts l)) x = true) :
+    ∃ r ∈ l, inRanges (alphabet r) x = true := by
+  induction l with
+  | nil => simp [ofAlts, alphabet, inRanges] at h
+  | cons r rs ih =>
+    cases rs with
+    | nil => exact ⟨r, by simp, by simpa [ofAlts] using h⟩
+    | cons r' rs' =>
+      have h' : inRanges (alphabet r ++ alphabet (ofAlts (r' :: rs'))) x = true := h
+      rw [inRanges_append, Bool.or_eq_true] at h'
+      rcases h' with h' | h'
+      · exact ⟨r, by simp, h'⟩
+      · obtain ⟨q, hq, hx⟩ := ih h'
+        exact ⟨q, List.mem_cons_of_mem _ hq, hx⟩
+
 theorem alphabet_mkAlt (a b : Re) (x : Char) (h : inRanges (alphabet (mkAlt a b)) x = true) :
     inRanges (alphabet a) x = true ∨ inRanges (alphabet b) x = true := by
   unfold mkAlt at h
-  split at h
-  · exact Or.inr h
-  · exact Or.inl h
-  · simpa [alphabet, inRanges_append] using h
+  obtain ⟨r, hr, hx⟩ := alphabet_ofAlts _ x h
+  rcases List.mem_append.mp ((mem_dedupRe r _).mp hr) with hm | hm
+  · exact Or.inl (alphabet_of_mem_alts a r x hm hx)
+  · exact Or.inr (alphabet_of_mem_alts b r x hm hx)
 
 theorem alphabet_deriv (r : Re) (c x : Char) (h : inRanges (alphabet (deriv c r)) x = true) :
     inRanges (alphabet r) x = true := by
